@@ -93,6 +93,11 @@ inline std::vector<GGroup> buildGroups(const Content& c, const Layout& l) {
         }
         if (c.extra == "char0d") { GParam p; p.name = "C0D"; p.type = -1; p.data = "x"; E.params.push_back(p); }
         if (c.extra == "custom") for (auto& p : c.customParams) E.params.push_back(p);
+        if (c.extra == "dsprefix") {   // names that EXTEND or SHORTEN a specially treated name, and mandatory-parameter names in a vendor group
+            E.params.push_back(GParam::ints("DATA_START_FRAME", {}, {705})); E.params.push_back(GParam::floats("DATA_STAR", {}, {f2b(3.5f)})); E.params.push_back(GParam::ints("USED", {}, {77}));
+            E.params.push_back(GParam::ints("FRAMES", {2}, {9, 8})); E.params.push_back(GParam::strs("LABELS", 3, {2}, {"xy", "z"})); E.params.push_back(GParam::floats("RATE", {}, {f2b(7.0f)}));
+        }
+        if (c.extra == "dsother") { E.params.push_back(GParam::ints("DATA_START", {}, {9})); E.params.push_back(GParam::floats("SCALE", {}, {f2b(0.5f)})); }   // the very name, in ANOTHER group
         if (c.extra == "int0") { E.params.push_back(GParam::ints("ONE", {1}, {42})); E.params.push_back(GParam::floats("FONE", {1}, {f2b(4.25f)})); }
         G.push_back(E);
     }
@@ -168,7 +173,7 @@ inline std::vector<Dim> dims(bool thorough) {
     d.push_back({"events", {"0", "2", "18"}});
     d.push_back({"rates", {"100x2", "50x2", "29.97x2", "23.976x2", "0x1"}});
     d.push_back({"values", {"plain", "special"}});
-    d.push_back({"extra", {"small", "none", "bytes", "dim3", "str1d", "empty", "int0", "all", "char0d", "ctrlws"}});
+    d.push_back({"extra", {"small", "none", "bytes", "dim3", "str1d", "empty", "int0", "all", "char0d", "ctrlws", "dsprefix", "dsother"}});
     d.push_back({"descs", {"short", "none", "lower", "d64", "d127", "d128", "d255"}});
     d.push_back({"names", {"std", "long"}});
     d.push_back({"hdrwords", {"std", "odd"}});
